@@ -649,7 +649,7 @@ impl LyNative for ListCollect {
 
     hooks.push_root(list);
 
-    while !is_falsey(iter.next(hooks)?) {
+    while !is_falsey(iter.next(hooks).inspect_err(|_| hooks.pop_roots(1))?) {
       let current = iter.current();
       list.push(current, &hooks.as_gc());
     }
